@@ -187,6 +187,26 @@ def build_pool(seed):
             if st["by_method"].get(m) and rng.random() < 0.3:
                 grp.append({"op": "iban", "text": de_iban(rng.choice(st["by_method"][m]), acct), "validate_bban": True})
         groups.append(grp)
+    # the same list of components handed to every registered national algorithm object in turn (whatever each makes of it - a
+    # value or an exception): what one of them worked out for this text is not another one's answer
+    try:
+        from schwifty.checksum import algorithms as _algos
+        algo_keys = sorted(k for k in _algos if not k.startswith("DE:"))
+    except Exception:  # noqa: BLE001 - refactored away: nothing to hand components to
+        algo_keys = []
+    for cc in ("FR", "MR", "BE", "PT", "IT", "ES", "NO", "FI"):
+        if not algo_keys or cc not in o.table:
+            continue
+        b = g.natvalid_bban(cc, rng) or g.bban(cc, rng)
+        comps = [o.component(cc, b, k) for k in ("bank_code", "branch_code", "account_code")]
+        comps = [c for c in comps if c]
+        order = list(algo_keys)
+        rng.shuffle(order)
+        grp = []
+        for k in order + order[::-1]:
+            grp.append({"op": "algo", "key": k, "components": comps})
+            grp.append({"op": "algo", "key": k, "components": comps, "how": "validate", "expected": "00"})
+        groups.append(grp)
     from .c14 import NATIONAL, national_calls
     for cc in NATIONAL:
         grp = national_calls(rng, cc) + national_calls(rng, cc)
